@@ -110,6 +110,8 @@ def check(run):
     # ---- wide monitor (+ long paragraphs with bottom padding/border, split over pages)
     docs = [widegen.document(rng, widegen.ALL_FEATS) for _ in range(2000 if thorough else 350)]
     docs += [deco_document(rng) for _ in range(600 if thorough else 120)]
+    # tables and multi-column boxes split over several pages, column-span blocks first on a page
+    docs += [widegen.split_document(rng) for _ in range(800 if thorough else 200)]
     outs = common.run_impl('impl_wide', 'render_fit', [{'html': h} for h, _, _ in docs], limit=90)
     nitems = 0
     keys = []
